@@ -1,1 +1,1012 @@
-fn main() { eprintln!("not built yet"); std::process::exit(2); }
+//! C15 — WMO root and group files survive write→parse unchanged.
+//!
+//! Bounded exhaustive exploration: a root / group is a pure function of a vector of per-section
+//! levels (none / one / many ...). Every vector with at most k sections deviating from the empty
+//! and from the full baseline is enumerated for every version Classic..MoP, written with the real
+//! `WmoWriter`, and judged by
+//!   * an independent chunk walker (`walk.rs`, written from /repo/docs): chunks tile the file,
+//!     MOHD counts equal list lengths, string-offset tables resolve, MOGP covers its sub-chunks;
+//!   * the library's own parsers (`WmoParser::parse_root`, `parse_wmo`): content equality per
+//!     section and field, second write byte-identical;
+//!   * `WmoConverter` over all 25 version pairs: content representable in both versions is kept.
+mod inputs;
+mod model;
+mod walk;
+
+use inputs::*;
+use model::*;
+use serde_json::{json, Value};
+use std::io::Cursor;
+use vcore::*;
+use walk::*;
+use wow_wmo::wmo_group_types::WmoGroup;
+use wow_wmo::*;
+
+// ------------------------------------------------------------------ small helpers
+
+type Guarded<T> = std::result::Result<T, (String, u32, String)>;
+
+fn clean(s: &str) -> String {
+    // binrw errors carry ANSI escapes, box drawing and a multi-line backtrace: keep the words
+    let mut out = String::new();
+    let mut esc = false;
+    for c in s.chars() {
+        if esc {
+            if c.is_ascii_alphabetic() {
+                esc = false;
+            }
+            continue;
+        }
+        if c == '\u{1b}' {
+            esc = true;
+            continue;
+        }
+        if c.is_ascii_graphic() || c == ' ' {
+            out.push(c);
+        } else if !out.ends_with(' ') {
+            out.push(' ');
+        }
+    }
+    let out = out.split_whitespace().collect::<Vec<_>>().join(" ");
+    out.chars().take(300).collect()
+}
+
+fn add(r: &mut CaseResult, symptom: String, detail: String) {
+    if !r.viols.iter().any(|v| v.symptom == symptom) {
+        r.viol(symptom, clean(&detail));
+    }
+}
+
+fn write_root_bytes(x: &WmoRoot, v: WmoVersion) -> Guarded<std::result::Result<Vec<u8>, String>> {
+    guarded(|| {
+        let mut c = Cursor::new(Vec::new());
+        match WmoWriter::new().write_root(&mut c, x, v) {
+            Ok(()) => Ok(c.into_inner()),
+            Err(e) => Err(e.to_string()),
+        }
+    })
+}
+
+fn write_group_bytes(g: &WmoGroup, v: WmoVersion) -> Guarded<std::result::Result<Vec<u8>, String>> {
+    guarded(|| {
+        let mut c = Cursor::new(Vec::new());
+        match WmoWriter::new().write_group(&mut c, g, v) {
+            Ok(()) => Ok(c.into_inner()),
+            Err(e) => Err(e.to_string()),
+        }
+    })
+}
+
+/// One symptom per differing section (the set of differing fields is part of the class); the
+/// header section holds independent scalar fields and gets one symptom per field.
+fn report(r: &mut CaseResult, prefix: &str, suffix: &str, d: &Diff) {
+    if d.section == "header" {
+        for f in &d.fields {
+            add(r, format!("{prefix}: header.{f} {suffix}"), d.detail.clone());
+        }
+    } else {
+        add(r, format!("{prefix}: {}.{{{}}} {suffix}", d.section, d.fields.join(",")), d.detail.clone());
+    }
+}
+
+fn first_diff(a: &[u8], b: &[u8]) -> String {
+    let n = a.len().min(b.len());
+    let at = (0..n).find(|&i| a[i] != b[i]).unwrap_or(n);
+    format!("lengths {} / {}, first difference at byte {}", a.len(), b.len(), at)
+}
+
+fn section_of_root_chunk(id: &str) -> Option<&'static str> {
+    Some(match id {
+        "MOTX" => "textures",
+        "MOMT" => "materials",
+        "MOGN" | "MOGI" => "groups",
+        "MOSB" => "skybox",
+        "MOPV" | "MOPT" => "portals",
+        "MOPR" => "portal_references",
+        "MOVV" | "MOVB" => "visible_block_lists",
+        "MOLT" => "lights",
+        "MODN" | "MODD" => "doodad_defs",
+        "MODS" => "doodad_sets",
+        _ => return None,
+    })
+}
+
+fn section_of_group_chunk(id: &str) -> Option<&'static str> {
+    Some(match id {
+        "MOVT" => "vertices",
+        "MOVI" => "indices",
+        "MONR" => "normals",
+        "MOTV" => "tex_coords",
+        "MOCV" => "vertex_colors",
+        "MOBA" => "batches",
+        "MOBN" => "bsp_nodes",
+        "MLIQ" => "liquid",
+        "MODR" => "doodad_refs",
+        _ => return None,
+    })
+}
+
+const SYM_MOHD: &str = "root: MOHD chunk is not the 64 bytes parse_wmo reads (trailing header fields are taken from the following bytes or hit end of file)";
+const SYM_GHDR: &str = "group: MOGP header is not the 68 bytes parse_wmo reads (sub-chunks are misparsed or the size subtraction overflows)";
+const REFRAMED: &str = " [sub-chunks re-framed behind a 68-byte MOGP header]";
+
+// ------------------------------------------------------------------ root oracle
+
+struct RootOutcome {
+    tiling: &'static str,
+    parse_root: &'static str,
+    parse_wmo: &'static str,
+    second: &'static str,
+}
+
+fn check_root(x: &WmoRoot, cfg: &[u8], v: WmoVersion, r: &mut CaseResult) -> RootOutcome {
+    let mut oc = RootOutcome { tiling: "-", parse_root: "-", parse_wmo: "-", second: "skipped" };
+    let w1 = match write_root_bytes(x, v) {
+        Ok(Ok(b)) => b,
+        Ok(Err(_)) => {
+            r.err_return = true;
+            oc.tiling = "writer_err";
+            return oc;
+        }
+        Err((file, line, msg)) => {
+            add(r, panic_class(&file, &msg), format!("write_root: panic at {file}:{line}: {msg}"));
+            oc.tiling = "writer_panic";
+            return oc;
+        }
+    };
+    r.count("bytes_written", w1.len() as u64);
+
+    // ---- independent walker
+    let wk = walk(&w1, 0, w1.len(), &ROOT_IDS);
+    // sections not judged through the parsers: their chunk has a wrong size field, or lies behind
+    // such a chunk (what a parser finds there is a consequence of the size defect reported here)
+    let mut broken: Vec<String> = vec![];
+    let first_gap = wk.gaps.iter().map(|g| g.at).min().unwrap_or(usize::MAX);
+    for c in &wk.chunks {
+        if c.hdr >= first_gap {
+            if let Some(s) = section_of_root_chunk(&c.id) {
+                broken.push(s.to_string());
+            }
+        }
+    }
+    oc.tiling = if wk.gaps.is_empty() { "tiles" } else { "gaps" };
+    for g in &wk.gaps {
+        add(
+            r,
+            format!("root: chunk {} size field does not cover the bytes written (next chunk header not where the size says)", g.after),
+            format!("{} uncovered bytes at offset {} after chunk {}; chunks found: {:?}", g.len, g.at, g.after, wk.ids()),
+        );
+        if let Some(s) = section_of_root_chunk(&g.after) {
+            broken.push(s.to_string());
+        }
+    }
+    for id in ROOT_IDS {
+        if wk.count(id) > 1 {
+            add(r, format!("root: chunk {id} written more than once"), format!("{:?}", wk.ids()));
+        }
+    }
+    let mver_ok = wk.chunks.first().map(|c| c.id == "MVER" && c.end - c.start == 4 && u32_at(&w1, c.start) == Some(17)).unwrap_or(false);
+    if !mver_ok {
+        add(r, "root: MVER is not the first chunk with version 17".into(), format!("{:?}", wk.ids()));
+    }
+    let mohd = wk.chunks.get(1).filter(|c| c.id == "MOHD" && c.end - c.start >= 36).cloned();
+    if mohd.is_none() {
+        add(r, "root: MOHD is not the second chunk (or is shorter than its count fields)".into(), format!("{:?}", wk.ids()));
+    }
+    let data = |id: &str| wk.get(id).map(|c| &w1[c.start..c.end]);
+    if let Some(h) = &mohd {
+        let modn_strings = data("MODN").map(count_strings).unwrap_or(0);
+        let counts: [(&str, usize, usize); 7] = [
+            ("n_materials", 0, x.materials.len()),
+            ("n_groups", 4, x.groups.len()),
+            ("n_portals", 8, x.portals.len()),
+            ("n_lights", 12, x.lights.len()),
+            ("n_doodad_names", 16, modn_strings),
+            ("n_doodad_defs", 20, x.doodad_defs.len()),
+            ("n_doodad_sets", 24, x.doodad_sets.len()),
+        ];
+        for (name, off, want) in counts {
+            let got = u32_at(&w1, h.start + off).unwrap_or(u32::MAX) as usize;
+            if got != want {
+                add(
+                    r,
+                    format!("root: MOHD {name} does not equal the length of the list written"),
+                    format!("MOHD.{name} = {got}, list length = {want}"),
+                );
+            }
+        }
+    }
+    let portal_vertices: usize = x.portals.iter().map(|p| p.vertices.len()).sum();
+    let sized: [(&str, usize, usize); 8] = [
+        ("MOMT", 64, x.materials.len()),
+        ("MOGI", 32, x.groups.len()),
+        ("MOPV", 12, portal_vertices),
+        ("MOPT", 20, x.portals.len()),
+        ("MOPR", 8, x.portal_references.len()),
+        ("MOLT", 48, x.lights.len()),
+        ("MODD", 40, x.doodad_defs.len()),
+        ("MODS", 32, x.doodad_sets.len()),
+    ];
+    for (id, rec, n) in sized {
+        match wk.get(id) {
+            None => {
+                if n != 0 {
+                    add(r, format!("root: chunk {id} missing although the list is not empty"), format!("{n} records; chunks {:?}", wk.ids()));
+                }
+            }
+            Some(c) => {
+                let gap_after = wk.gaps.iter().any(|g| g.after == id);
+                if !gap_after && c.end - c.start != rec * n {
+                    add(
+                        r,
+                        format!("root: chunk {id} size is not list length x documented record size"),
+                        format!("size {} for {} records of {} bytes", c.end - c.start, n, rec),
+                    );
+                }
+            }
+        }
+    }
+    // string-offset tables
+    if let (Some(gi), Some(gn)) = (wk.get("MOGI"), data("MOGN")) {
+        for (i, g) in x.groups.iter().enumerate() {
+            let off = u32_at(&w1, gi.start + 32 * i + 28).unwrap_or(u32::MAX) as usize;
+            let got = cstr_at(gn, off);
+            if got != Some(g.name.as_bytes()) {
+                add(
+                    r,
+                    "root: MOGI name offset does not resolve to the group's name in MOGN".into(),
+                    format!("group {i} {:?}: offset {off} resolves to {:?}", g.name, got.map(String::from_utf8_lossy)),
+                );
+                break;
+            }
+        }
+    }
+    if let (Some(mt), Some(tx)) = (wk.get("MOMT"), data("MOTX")) {
+        'm: for i in 0..x.materials.len() {
+            for (slot, at) in [(0usize, 12usize), (1, 24)] {
+                let Some(k) = material_texture_ref(i, slot, x.textures.len()) else { continue };
+                let off = u32_at(&w1, mt.start + 64 * i + at).unwrap_or(u32::MAX) as usize;
+                let got = cstr_at(tx, off);
+                if got != Some(x.textures[k].as_bytes()) {
+                    add(
+                        r,
+                        "root: MOMT texture offset does not resolve to the material's texture in MOTX".into(),
+                        format!("material {i} texture{}: offset {off} resolves to {:?}, want {:?}", slot + 1, got.map(String::from_utf8_lossy), x.textures[k]),
+                    );
+                    break 'm;
+                }
+            }
+        }
+    }
+    if let (Some(dd), Some(dn)) = (wk.get("MODD"), data("MODN")) {
+        for i in 0..x.doodad_defs.len() {
+            let off = (u32_at(&w1, dd.start + 40 * i).unwrap_or(u32::MAX) & 0x00FF_FFFF) as usize;
+            if !is_string_start(dn, off) {
+                add(r, "root: MODD name offset does not address a string start in MODN".into(), format!("doodad {i}: offset {off}, MODN {} bytes", dn.len()));
+                break;
+            }
+        }
+    }
+
+    // ---- WmoParser::parse_root: content equality, header counts, second write
+    let expected = root_model(x, Some(v), false);
+    let expected_bytes_view = root_model(x, Some(v), true);
+    let mut by_parse_root: Vec<String> = vec![]; // "section.field" already reported through parse_root
+    let mut cur = Cursor::new(&w1[..]);
+    match guarded(|| WmoParser::new().parse_root(&mut cur)) {
+        Err((file, line, msg)) => {
+            oc.parse_root = "panic";
+            add(r, panic_class(&file, &msg), format!("parse_root: panic at {file}:{line}: {msg}"));
+        }
+        Ok(Err(e)) => {
+            oc.parse_root = "err";
+            add(r, "root: parse_root fails on a written file".into(), e.to_string());
+        }
+        Ok(Ok(p)) => {
+            oc.parse_root = "ok";
+            let (ds, nf) = diff(&expected, &root_model(&p, None, false), &broken);
+            r.count("fields_compared_parse_root", nf);
+            for d in &ds {
+                report(r, "root", "differs after write->parse_root", d);
+                for f in &d.fields {
+                    by_parse_root.push(format!("{}.{}", d.section, f));
+                }
+            }
+            let lens: [(&str, &str, u32, usize); 6] = [
+                ("n_materials", "materials", p.header.n_materials, p.materials.len()),
+                ("n_groups", "groups", p.header.n_groups, p.groups.len()),
+                ("n_portals", "portals", p.header.n_portals, p.portals.len()),
+                ("n_lights", "lights", p.header.n_lights, p.lights.len()),
+                ("n_doodad_defs", "doodad_defs", p.header.n_doodad_defs, p.doodad_defs.len()),
+                ("n_doodad_sets", "doodad_sets", p.header.n_doodad_sets, p.doodad_sets.len()),
+            ];
+            for (name, section, stored, len) in lens {
+                if broken.iter().any(|b| b == section) {
+                    continue;
+                }
+                if stored as usize != len {
+                    add(r, format!("root: parsed header {name} differs from the parsed list length"), format!("{stored} vs {len}"));
+                }
+            }
+            if p.textures == x.textures {
+                let ok = p.texture_offset_index_map.len() == x.textures.len()
+                    && (0..x.textures.len()).all(|k| p.texture_offset_index_map.get(&table_offset(&x.textures, k)) == Some(&(k as u32)));
+                if !ok {
+                    let mut m: Vec<_> = p.texture_offset_index_map.iter().collect();
+                    m.sort();
+                    add(r, "root: texture_offset_index_map does not map each MOTX offset to its texture index".into(), format!("{:?}", m));
+                }
+            }
+            if ds.is_empty() && wk.gaps.is_empty() {
+                match write_root_bytes(&p, v) {
+                    Ok(Ok(w2)) => {
+                        if w2 != w1 {
+                            oc.second = "differs";
+                            add(r, "root: second write is not byte-identical".into(), first_diff(&w1, &w2));
+                        } else {
+                            oc.second = "identical";
+                            r.count("second_writes_identical", 1);
+                        }
+                    }
+                    Ok(Err(e)) => add(r, "root: writer refuses the root it wrote and parsed".into(), e),
+                    Err((file, line, msg)) => add(r, panic_class(&file, &msg), format!("second write_root: panic at {file}:{line}: {msg}")),
+                }
+            }
+        }
+    }
+
+    // ---- parse_wmo (binrw parser): same content seen through the other public parser
+    let mohd_ok = mohd.as_ref().map(|c| c.end - c.start == 64).unwrap_or(false);
+    let mut cur = Cursor::new(&w1[..]);
+    match guarded(|| parse_wmo(&mut cur)) {
+        Err((file, line, msg)) => {
+            oc.parse_wmo = "panic";
+            if mohd_ok {
+                add(r, panic_class(&file, &msg), format!("parse_wmo: panic at {file}:{line}: {msg}"));
+            } else {
+                add(r, SYM_MOHD.into(), format!("parse_wmo panicked: {msg}"));
+            }
+        }
+        Ok(Err(e)) => {
+            oc.parse_wmo = "err";
+            if mohd_ok {
+                add(r, "root: parse_wmo fails on a written file".into(), e.to_string());
+            } else {
+                add(r, SYM_MOHD.into(), format!("MOHD size {:?}; parse_wmo: {e}", mohd.as_ref().map(|c| c.end - c.start)));
+            }
+        }
+        Ok(Ok(ParsedWmo::Group(_))) => {
+            oc.parse_wmo = "as_group";
+            add(r, "root: parse_wmo classifies a written root file as a group file".into(), String::new());
+        }
+        Ok(Ok(ParsedWmo::Root(n))) => {
+            oc.parse_wmo = "ok";
+            if n.version != 17 {
+                add(r, "root: version differs after write->parse_wmo".into(), format!("{}", n.version));
+            }
+            if !mohd_ok {
+                let want = (expected_flags(x, v) & 0xFFFF) & !WmoFlags::HAS_SKYBOX.bits();
+                let got = (n.flags as u32) & !WmoFlags::HAS_SKYBOX.bits();
+                if got != want || n.num_lod != 0 {
+                    add(
+                        r,
+                        SYM_MOHD.into(),
+                        format!("MOHD size {:?}; flags read {:#x} (want {:#x}), num_lod read {}", mohd.as_ref().map(|c| c.end - c.start), got, want, n.num_lod),
+                    );
+                }
+            }
+            // differences already reported through parse_root are writer-side and not repeated
+            let mut skip2 = broken.clone();
+            skip2.extend(by_parse_root.iter().cloned());
+            let (ds, nf) = diff(&expected_bytes_view, &new_root_model(&n, mohd_ok), &skip2);
+            r.count("fields_compared_parse_wmo_root", nf);
+            for d in &ds {
+                report(r, "root", "differs after write->parse_wmo", d);
+            }
+            if !broken.iter().any(|b| b == "groups") {
+                // as sets: a writer may store a duplicated name once
+                let want: std::collections::BTreeSet<&String> = x.groups.iter().map(|g| &g.name).collect();
+                let got: std::collections::BTreeSet<&String> = n.group_names.iter().collect();
+                if want != got {
+                    add(r, "root: group_names differs after write->parse_wmo".into(), format!("want {:?} got {:?}", want, got));
+                }
+            }
+            if !broken.iter().any(|b| b == "doodad_defs") && n.doodad_names.len() != n.n_doodad_names as usize {
+                add(
+                    r,
+                    "root: parse_wmo doodad name count differs from MOHD n_doodad_names".into(),
+                    format!("{} names, header says {}", n.doodad_names.len(), n.n_doodad_names),
+                );
+            }
+        }
+    }
+    let _ = cfg;
+    oc
+}
+
+fn expected_flags(x: &WmoRoot, _v: WmoVersion) -> u32 {
+    x.header.flags.bits()
+}
+
+// ------------------------------------------------------------------ group oracle
+
+struct GroupOutcome {
+    tiling: String,
+    native: &'static str,
+    reframed: &'static str,
+}
+
+fn mogp68(g: &WmoGroup, sub: &[u8]) -> Vec<u8> {
+    let mut out = vec![];
+    out.extend_from_slice(b"REVM");
+    out.extend_from_slice(&4u32.to_le_bytes());
+    out.extend_from_slice(&17u32.to_le_bytes());
+    out.extend_from_slice(b"PGOM");
+    out.extend_from_slice(&((68 + sub.len()) as u32).to_le_bytes());
+    let mut h = vec![];
+    h.extend_from_slice(&g.header.name_offset.to_le_bytes());
+    h.extend_from_slice(&0u32.to_le_bytes());
+    h.extend_from_slice(&g.header.flags.bits().to_le_bytes());
+    let b = &g.header.bounding_box;
+    for f in [b.min.x, b.min.y, b.min.z, b.max.x, b.max.y, b.max.z] {
+        h.extend_from_slice(&f.to_le_bytes());
+    }
+    h.resize(68, 0);
+    out.extend_from_slice(&h);
+    out.extend_from_slice(sub);
+    out
+}
+
+fn check_group(g: &WmoGroup, v: WmoVersion, r: &mut CaseResult) -> GroupOutcome {
+    let mut oc = GroupOutcome { tiling: "-".into(), native: "-", reframed: "-" };
+    let w1 = match write_group_bytes(g, v) {
+        Ok(Ok(b)) => b,
+        Ok(Err(_)) => {
+            r.err_return = true;
+            oc.tiling = "writer_err".into();
+            return oc;
+        }
+        Err((file, line, msg)) => {
+            add(r, panic_class(&file, &msg), format!("write_group: panic at {file}:{line}: {msg}"));
+            oc.tiling = "writer_panic".into();
+            return oc;
+        }
+    };
+    r.count("bytes_written", w1.len() as u64);
+
+    // ---- independent walker: MVER + one MOGP spanning the rest; sub-chunks tile the MOGP payload
+    let top = walk(&w1, 0, w1.len(), &GROUP_TOP_IDS);
+    let top_ok = top.gaps.is_empty()
+        && top.chunks.len() == 2
+        && top.chunks[0].id == "MVER"
+        && top.chunks[0].end - top.chunks[0].start == 4
+        && u32_at(&w1, top.chunks[0].start) == Some(17)
+        && top.chunks[1].id == "MOGP"
+        && top.chunks[1].end == w1.len();
+    if !top_ok {
+        add(
+            r,
+            "group: file is not MVER(17) followed by one MOGP chunk whose size covers the rest of the file".into(),
+            format!("chunks {:?}, gaps {:?}, file length {}", top.chunks, top.gaps, w1.len()),
+        );
+        oc.tiling = "top_broken".into();
+        return oc;
+    }
+    let mogp = top.chunks[1].clone();
+    let lay = group_layout(&w1, &mogp);
+    oc.tiling = match lay.header_len {
+        Some(68) => "hdr68".into(),
+        Some(_) => "hdr_other".into(),
+        None => "sub_gaps".into(),
+    };
+    let mut skip: Vec<String> = vec![];
+    if lay.header_len.is_none() {
+        let first_gap = lay.sub.gaps.iter().map(|g| g.at).min().unwrap_or(usize::MAX);
+        for gp in &lay.sub.gaps {
+            add(
+                r,
+                format!("group: sub-chunk {} size field does not cover the bytes written (next sub-chunk header not where the size says)", gp.after),
+                format!(
+                    "{} uncovered bytes at offset {} after {} (MOGP header taken as {} bytes); sub-chunks {:?}",
+                    gp.len,
+                    gp.at,
+                    gp.after,
+                    lay.used_len,
+                    lay.sub.ids()
+                ),
+            );
+            if let Some(s) = section_of_group_chunk(&gp.after) {
+                skip.push(s.to_string());
+            }
+        }
+        for c in &lay.sub.chunks {
+            if c.hdr >= first_gap {
+                if let Some(s) = section_of_group_chunk(&c.id) {
+                    skip.push(s.to_string());
+                }
+            }
+        }
+    }
+    let sized: [(&str, usize, usize); 8] = [
+        ("MOVT", 12, g.vertices.len()),
+        ("MOVI", 2, g.indices.len()),
+        ("MONR", 12, g.normals.len()),
+        ("MOTV", 8, g.tex_coords.len()),
+        ("MOCV", 4, g.vertex_colors.as_ref().map(|c| c.len()).unwrap_or(0)),
+        ("MOBA", 24, g.batches.len()),
+        ("MOBN", 16, g.bsp_nodes.as_ref().map(|c| c.len()).unwrap_or(0)),
+        ("MODR", 2, g.doodad_refs.as_ref().map(|c| c.len()).unwrap_or(0)),
+    ];
+    for (id, rec, n) in sized {
+        if lay.sub.count(id) > 1 {
+            add(r, format!("group: sub-chunk {id} written more than once"), format!("{:?}", lay.sub.ids()));
+        }
+        match lay.sub.get(id) {
+            None => {
+                if n != 0 && !skip.iter().any(|s| s == section_of_group_chunk(id).unwrap()) {
+                    add(r, format!("group: sub-chunk {id} missing although the list is not empty"), format!("{n} records; sub-chunks {:?}", lay.sub.ids()));
+                }
+            }
+            Some(c) => {
+                let gap_after = lay.sub.gaps.iter().any(|x| x.after == id);
+                if !gap_after && c.end - c.start != rec * n {
+                    add(
+                        r,
+                        format!("group: sub-chunk {id} size is not list length x documented record size"),
+                        format!("size {} for {} records of {} bytes", c.end - c.start, n, rec),
+                    );
+                }
+            }
+        }
+    }
+    if g.liquid.is_some() != lay.sub.get("MLIQ").is_some() && !skip.iter().any(|s| s == "liquid") {
+        add(r, "group: MLIQ sub-chunk presence differs from the liquid in the input".into(), format!("{:?}", lay.sub.ids()));
+    }
+
+    // ---- parse_wmo on the bytes as written
+    let expected = group_model(g);
+    let hdr_ok = lay.used_len == 68;
+    let mut cur = Cursor::new(&w1[..]);
+    let native = guarded(|| parse_wmo(&mut cur));
+    let mut native_bad: Option<String> = None;
+    match native {
+        Err((file, line, msg)) => {
+            oc.native = "panic";
+            if hdr_ok {
+                add(r, panic_class(&file, &msg), format!("parse_wmo(group): panic at {file}:{line}: {msg}"));
+            } else {
+                native_bad = Some(format!("parse_wmo panicked at {file}:{line}: {msg}"));
+            }
+        }
+        Ok(Err(e)) => {
+            oc.native = "err";
+            if hdr_ok {
+                add(r, "group: parse_wmo fails on a written file".into(), e.to_string());
+            } else {
+                native_bad = Some(format!("parse_wmo: {e}"));
+            }
+        }
+        Ok(Ok(ParsedWmo::Root(_))) => {
+            oc.native = "as_root";
+            add(r, "group: parse_wmo classifies a written group file as a root file".into(), String::new());
+        }
+        Ok(Ok(ParsedWmo::Group(n))) => {
+            oc.native = "ok";
+            let (ds, nf) = diff(&expected, &new_group_model(&n), &skip);
+            if hdr_ok {
+                r.count("fields_compared_parse_wmo_group", nf);
+            }
+            if n.version != 17 {
+                add(r, "group: version differs after write->parse_wmo".into(), format!("{}", n.version));
+            }
+            if hdr_ok {
+                for d in &ds {
+                    report(r, "group", "differs after write->parse_wmo", d);
+                }
+            } else if let Some(d) = ds.first() {
+                native_bad = Some(format!("{} sections differ, first: {} {}", ds.len(), d.section, d.detail));
+            }
+        }
+    }
+    if let Some(why) = native_bad {
+        add(r, SYM_GHDR.into(), format!("header length found by the walker: {}; {}", lay.used_len, why));
+    }
+
+    // ---- the writer's sub-chunk bytes behind a well-formed 68-byte header, judged by parse_wmo
+    if !hdr_ok {
+        let sub = &w1[mogp.start + lay.used_len..mogp.end];
+        let w = mogp68(g, sub);
+        let mut cur = Cursor::new(&w[..]);
+        let mut sk = skip.clone();
+        sk.push("header".to_string());
+        match guarded(|| parse_wmo(&mut cur)) {
+            Err((file, line, msg)) => {
+                oc.reframed = "panic";
+                add(r, format!("{}{}", panic_class(&file, &msg), REFRAMED), format!("panic at {file}:{line}: {msg}"));
+            }
+            Ok(Err(e)) => {
+                oc.reframed = "err";
+                add(r, format!("group: parse_wmo fails on a written file{REFRAMED}"), e.to_string());
+            }
+            Ok(Ok(ParsedWmo::Root(_))) => {
+                oc.reframed = "as_root";
+            }
+            Ok(Ok(ParsedWmo::Group(n))) => {
+                oc.reframed = "ok";
+                let (ds, nf) = diff(&expected, &new_group_model(&n), &sk);
+                r.count("fields_compared_parse_wmo_group_reframed", nf);
+                for d in &ds {
+                    report(r, "group", &format!("differs after write->parse_wmo{REFRAMED}"), d);
+                }
+            }
+        }
+    }
+    oc
+}
+
+// ------------------------------------------------------------------ spaces
+
+fn k_for(space: &str, tier: Tier) -> usize {
+    match space {
+        "root" | "group" => tier.pick(3, 4),
+        _ => tier.pick(2, 3),
+    }
+}
+
+struct RoundTrip {
+    root: bool,
+    cfgs: Vec<Vec<u8>>,
+}
+impl RoundTrip {
+    fn sites(&self) -> &'static [Site] {
+        if self.root {
+            &ROOT_SITES
+        } else {
+            &GROUP_SITES
+        }
+    }
+    fn split(&self, i: u64) -> (&Vec<u8>, WmoVersion) {
+        (&self.cfgs[(i / 5) as usize], VERSIONS[(i % 5) as usize])
+    }
+}
+fn cfg_string(sites: &[Site], cfg: &[u8]) -> String {
+    let parts: Vec<String> = sites.iter().zip(cfg).map(|(s, &l)| format!("{}={}", s.name, s.levels[l as usize])).collect();
+    parts.join(" ")
+}
+impl Space for RoundTrip {
+    fn len(&self) -> u64 {
+        self.cfgs.len() as u64 * 5
+    }
+    fn describe(&self, i: u64) -> Value {
+        let (cfg, v) = self.split(i);
+        json!({"kind": if self.root { "root" } else { "group" }, "version": vname(v), "cfg": cfg_string(self.sites(), cfg)})
+    }
+    fn run(&self, i: u64) -> CaseResult {
+        let (cfg, v) = self.split(i);
+        let mut r = CaseResult::new();
+        r.key = format!("{}:{:?}:{}", self.root, cfg, vname(v));
+        r.nontrivial = cfg.iter().any(|&l| l != 0);
+        if self.root {
+            let x = build_root(cfg, v);
+            let oc = check_root(&x, cfg, v, &mut r);
+            r.outcome = format!("root tiling={} parse_root={} parse_wmo={} second={}", oc.tiling, oc.parse_root, oc.parse_wmo, oc.second);
+            r.count("root_roundtrips", 1);
+        } else {
+            let g = build_group(cfg);
+            let oc = check_group(&g, v, &mut r);
+            r.outcome = format!("group tiling={} native={} reframed={}", oc.tiling, oc.native, oc.reframed);
+            r.count("group_roundtrips", 1);
+        }
+        r
+    }
+    fn case_timeout(&self) -> u64 {
+        30
+    }
+}
+
+struct Convert {
+    root: bool,
+    cfgs: Vec<Vec<u8>>,
+}
+impl Convert {
+    fn split(&self, i: u64) -> (&Vec<u8>, WmoVersion, WmoVersion) {
+        let p = i % 25;
+        (&self.cfgs[(i / 25) as usize], VERSIONS[(p / 5) as usize], VERSIONS[(p % 5) as usize])
+    }
+}
+
+/// Content that the library itself treats as not representable on one side of the pair is
+/// blanked on both sides before comparing (skybox below WotLK, shadow-batch material flags below
+/// MoP, HAS_SKYBOX header flag which the writer derives).
+fn normalise_root(x: &mut WmoRoot, a: WmoVersion, b: WmoVersion) {
+    if a < WmoVersion::Wotlk || b < WmoVersion::Wotlk {
+        x.skybox = None;
+    }
+    if a < WmoVersion::Mop || b < WmoVersion::Mop {
+        for m in x.materials.iter_mut() {
+            m.flags &= !(WmoMaterialFlags::SHADOW_BATCH_1 | WmoMaterialFlags::SHADOW_BATCH_2);
+        }
+    }
+    x.header.flags &= !WmoFlags::HAS_SKYBOX;
+}
+fn normalise_group(g: &mut WmoGroup, a: WmoVersion, b: WmoVersion) {
+    if a < WmoVersion::Cataclysm || b < WmoVersion::Cataclysm {
+        g.header.flags &= !(WmoGroupFlags::HAS_MORE_MOTION_TYPES | WmoGroupFlags::USE_SCENE_GRAPH | WmoGroupFlags::EXTERIOR_BSP);
+    }
+    // every version in Classic..MoP is below Legion
+    g.header.flags &= !WmoGroupFlags::MOUNT_ALLOWED;
+}
+
+impl Space for Convert {
+    fn len(&self) -> u64 {
+        self.cfgs.len() as u64 * 25
+    }
+    fn describe(&self, i: u64) -> Value {
+        let (cfg, a, b) = self.split(i);
+        let sites: &[Site] = if self.root { &ROOT_SITES } else { &GROUP_SITES };
+        json!({"kind": if self.root { "convert_root" } else { "convert_group" }, "from": vname(a), "to": vname(b), "cfg": cfg_string(sites, cfg)})
+    }
+    fn run(&self, i: u64) -> CaseResult {
+        let (cfg, a, b) = self.split(i);
+        let mut r = CaseResult::new();
+        r.key = format!("conv{}:{:?}:{}>{}", self.root, cfg, vname(a), vname(b));
+        r.nontrivial = cfg.iter().any(|&l| l != 0);
+        r.count("conversions", 1);
+        let conv = WmoConverter::new();
+        if self.root {
+            let mut x = build_root(cfg, a);
+            match guarded(|| conv.convert_root(&mut x, b)) {
+                Err((file, line, msg)) => {
+                    add(&mut r, panic_class(&file, &msg), format!("convert_root: panic at {file}:{line}: {msg}"));
+                    r.outcome = "convert_root panic".into();
+                    return r;
+                }
+                Ok(Err(_)) => {
+                    r.err_return = true;
+                    r.outcome = "convert_root refused".into();
+                    return r;
+                }
+                Ok(Ok(())) => {}
+            }
+            if x.version != b {
+                add(&mut r, "convert_root: version field is not the target version afterwards".into(), format!("{:?} -> {:?}: {:?}", a, b, x.version));
+            }
+            let mut want = build_root(cfg, a);
+            normalise_root(&mut want, a, b);
+            normalise_root(&mut x, a, b);
+            let (ds, nf) = diff(&root_model(&want, None, false), &root_model(&x, None, false), &[]);
+            r.count("fields_compared_conversion", nf);
+            for d in &ds {
+                report(&mut r, "convert_root", "is not preserved", d);
+            }
+            if x.textures != want.textures || x.convex_volume_planes.is_some() {
+                add(&mut r, "convert_root: textures / convex volume planes changed".into(), String::new());
+            }
+            if ds.is_empty() {
+                let mut direct = build_root(cfg, b);
+                normalise_root(&mut direct, a, b);
+                match (write_root_bytes(&x, b), write_root_bytes(&direct, b)) {
+                    (Ok(Ok(w1)), Ok(Ok(w2))) => {
+                        if w1 != w2 {
+                            add(&mut r, "convert_root: written bytes differ from the same content built directly at the target version".into(), first_diff(&w1, &w2));
+                        }
+                    }
+                    (Ok(Err(_)), _) => r.err_return = true,
+                    (Err((file, line, msg)), _) => add(&mut r, panic_class(&file, &msg), format!("write after convert_root: panic at {file}:{line}: {msg}")),
+                    _ => {}
+                }
+            }
+            r.outcome = format!("convert_root {}", if a == b { "same" } else if a < b { "up" } else { "down" });
+        } else {
+            let mut g = build_group(cfg);
+            match guarded(|| conv.convert_group(&mut g, b, a)) {
+                Err((file, line, msg)) => {
+                    add(&mut r, panic_class(&file, &msg), format!("convert_group: panic at {file}:{line}: {msg}"));
+                    r.outcome = "convert_group panic".into();
+                    return r;
+                }
+                Ok(Err(_)) => {
+                    r.err_return = true;
+                    r.outcome = "convert_group refused".into();
+                    return r;
+                }
+                Ok(Ok(())) => {}
+            }
+            let mut want = build_group(cfg);
+            if a == b {
+                // identity conversion: nothing at all may change
+            } else {
+                normalise_group(&mut want, a, b);
+                normalise_group(&mut g, a, b);
+            }
+            let (ds, nf) = diff(&group_model(&want), &group_model(&g), &[]);
+            r.count("fields_compared_conversion", nf);
+            for d in &ds {
+                report(&mut r, "convert_group", "is not preserved", d);
+            }
+            if ds.is_empty() {
+                match (write_group_bytes(&g, b), write_group_bytes(&want, b)) {
+                    (Ok(Ok(w1)), Ok(Ok(w2))) => {
+                        if w1 != w2 {
+                            add(&mut r, "convert_group: written bytes differ from the same content built directly".into(), first_diff(&w1, &w2));
+                        }
+                    }
+                    (Ok(Err(_)), _) => r.err_return = true,
+                    (Err((file, line, msg)), _) => add(&mut r, panic_class(&file, &msg), format!("write after convert_group: panic at {file}:{line}: {msg}")),
+                    _ => {}
+                }
+            }
+            r.outcome = format!("convert_group {}", if a == b { "same" } else if a < b { "up" } else { "down" });
+        }
+        r
+    }
+}
+
+/// The legacy group parser named by the property's observation points.
+struct LegacyGroupParser;
+impl Space for LegacyGroupParser {
+    fn len(&self) -> u64 {
+        10
+    }
+    fn describe(&self, i: u64) -> Value {
+        json!({"kind": "legacy_group_parser", "version": vname(VERSIONS[(i % 5) as usize]), "cfg": if i < 5 { "empty baseline" } else { "full baseline" }})
+    }
+    fn run(&self, i: u64) -> CaseResult {
+        let mut r = CaseResult::new();
+        r.key = format!("legacy{i}");
+        r.nontrivial = i >= 5;
+        let cfg: Vec<u8> = GROUP_SITES.iter().map(|s| if i < 5 { 0 } else { (s.levels.len() - 1) as u8 }).collect();
+        let g = build_group(&cfg);
+        let v = VERSIONS[(i % 5) as usize];
+        if let Ok(Ok(w)) = write_group_bytes(&g, v) {
+            let mut cur = Cursor::new(&w[..]);
+            match guarded(|| WmoGroupParser::new().parse_group(&mut cur, g.header.group_index)) {
+                Ok(Ok(_)) => r.outcome = "legacy parse_group ok".into(),
+                Ok(Err(e)) => {
+                    r.outcome = "legacy parse_group err".into();
+                    add(&mut r, "group: WmoGroupParser::parse_group refuses a written group file".into(), e.to_string());
+                }
+                Err((file, line, msg)) => add(&mut r, panic_class(&file, &msg), format!("parse_group: panic at {file}:{line}: {msg}")),
+            }
+        }
+        r
+    }
+}
+
+fn build(name: &str, _arg: &str, tier: Tier) -> Box<dyn Space> {
+    match name {
+        "root" => Box::new(RoundTrip { root: true, cfgs: configs(&ROOT_SITES, k_for(name, tier)) }),
+        "group" => Box::new(RoundTrip { root: false, cfgs: configs(&GROUP_SITES, k_for(name, tier)) }),
+        "convert_root" => Box::new(Convert { root: true, cfgs: configs(&ROOT_SITES, k_for(name, tier)) }),
+        "convert_group" => Box::new(Convert { root: false, cfgs: configs(&GROUP_SITES, k_for(name, tier)) }),
+        "legacy_group_parser" => Box::new(LegacyGroupParser),
+        _ => panic!("space {name}"),
+    }
+}
+
+fn main() {
+    if std::env::args().any(|a| a == "--repro") {
+        repro();
+        return;
+    }
+    let Mode::Supervisor(mut c) = start("C15", "exploration", build) else { return };
+    let tier = c.tier;
+    let (kr, kc) = (k_for("root", tier), k_for("convert_root", tier));
+    c.rule = format!(
+        "A root is a function of 11 section levels (textures, materials, groups [incl. shared-prefix and duplicate names], portals, portal refs, visible lists, lights, doodad defs, doodad sets: none/one/many; skybox none/some; header plain/rich[stale in-memory counts]/custom bounds); a group of 10 (vertices, normals, tex coords, indices, batches, BSP nodes, vertex colours, liquid, doodad refs: none/one/many; header plain/rich). Round-trip spaces: every level vector with <= {kr} sections deviating from the all-empty and from the all-full baseline x 5 versions Classic..MoP. Conversion spaces: every vector with <= {kc} deviations x all 25 (from,to) pairs. A case is non-trivial when at least one section is populated; distinct by (level vector, version[s])."
+    );
+    c.assume("content equality is judged on a canonical per-section/per-field rendering (the library types have no PartialEq); derived fields are excluded: WmoRoot.version (all of Classic..MoP are stored as 17), HAS_SKYBOX header flag (derived from the skybox), WmoLight.properties (derived from light_type), texture_offset_index_map (checked separately), plane distance of portals, framebuffer_blend / set_index / convex volume planes / group materials (not stated by the property, no slot in the written format; kept at their defaults in the inputs)");
+    c.assume("group files: the only working group parser is parse_wmo, which returns a different type than the writer takes; only fields with an unambiguous counterpart are compared (batch flag bytes and liquid contents are not), and a byte-identical second write of a parsed group cannot be formed through the public API");
+    c.assume("the chunk walker (props/c15/src/walk.rs) is written from /repo/docs/src/formats/graphics/wmo.md and shares no code with /repo; it judges only layout-independent facts (chunks tile the file, counts, record-size multiples documented and used by both parsers, string-table resolution). The documented 64-byte MOHD / 68-byte MOGP header lengths are used only to attribute a failing parse_wmo round trip, never as a violation by themselves");
+    c.assume("conversion: skybox below WotLK, SHADOW_BATCH material flags below MoP and the scene-graph/motion/exterior-BSP/mount group flags below Cataclysm/Legion are treated as not representable (the converter's own model) and are blanked on both sides");
+    for s in ["root", "group", "convert_root", "convert_group", "legacy_group_parser"] {
+        c.run_space(s, "");
+    }
+    let n_root = configs(&ROOT_SITES, kr).len();
+    let n_group = configs(&GROUP_SITES, kr).len();
+    c.extra_cov.insert(
+        "axes".into(),
+        json!({
+            "versions": 5,
+            "conversion_pairs": 25,
+            "root_sites": ROOT_SITES.iter().map(|s| json!({s.name: s.levels.len()})).collect::<Vec<_>>(),
+            "group_sites": GROUP_SITES.iter().map(|s| json!({s.name: s.levels.len()})).collect::<Vec<_>>(),
+            "max_deviations_roundtrip": kr,
+            "max_deviations_conversion": kc,
+            "root_level_vectors": n_root,
+            "group_level_vectors": n_group,
+            "root_conversion_vectors": configs(&ROOT_SITES, kc).len(),
+            "group_conversion_vectors": configs(&GROUP_SITES, kc).len(),
+        }),
+    );
+    c.finish();
+}
+
+// ------------------------------------------------------------------ stand-alone reproductions
+
+fn repro() {
+    println!("== R1: two groups with different names, write_root -> parse_root");
+    let mut cfg = vec![0u8; 11];
+    cfg[2] = 2;
+    let x = build_root(&cfg, WmoVersion::Classic);
+    let w = write_root_bytes(&x, WmoVersion::Classic).unwrap().unwrap();
+    let p = WmoParser::new().parse_root(&mut Cursor::new(&w[..])).unwrap();
+    println!("   written names {:?}", x.groups.iter().map(|g| &g.name).collect::<Vec<_>>());
+    println!("   parsed  names {:?}", p.groups.iter().map(|g| &g.name).collect::<Vec<_>>());
+
+    println!("== R2: one material, target Classic: MOMT size field vs bytes written");
+    let mut cfg = vec![0u8; 11];
+    cfg[1] = 1;
+    let x = build_root(&cfg, WmoVersion::Classic);
+    let w = write_root_bytes(&x, WmoVersion::Classic).unwrap().unwrap();
+    let wk = walk(&w, 0, w.len(), &ROOT_IDS);
+    println!("   file {} bytes; chunks {:?}; gaps {:?}", w.len(), wk.chunks.iter().map(|c| (c.id.clone(), c.end - c.start)).collect::<Vec<_>>(), wk.gaps);
+    if let Ok(ParsedWmo::Root(n)) = parse_wmo(&mut Cursor::new(&w[..])) {
+        println!("   parse_wmo sees {} materials (1 written)", n.materials.len());
+    }
+
+    println!("== R3: empty root: MOHD size and parse_wmo");
+    let x = build_root(&vec![0u8; 11], WmoVersion::Classic);
+    let w = write_root_bytes(&x, WmoVersion::Classic).unwrap().unwrap();
+    println!("   file {} bytes, MOHD size field {}", w.len(), u32_at(&w, 16).unwrap());
+    println!("   parse_wmo -> {:?}", parse_wmo(&mut Cursor::new(&w[..])).map(|_| "ok").map_err(|e| e.to_string()));
+
+    println!("== R4: skybox written for WotLK, parse_root");
+    let mut cfg = vec![0u8; 11];
+    cfg[9] = 1;
+    let x = build_root(&cfg, WmoVersion::Wotlk);
+    let w = write_root_bytes(&x, WmoVersion::Wotlk).unwrap().unwrap();
+    let p = WmoParser::new().parse_root(&mut Cursor::new(&w[..])).unwrap();
+    println!("   written {:?}, parsed {:?} (parsed version {:?})", x.skybox, p.skybox, p.version);
+
+    println!("== R5: doodad definition with name_offset 15");
+    let mut cfg = vec![0u8; 11];
+    cfg[7] = 1;
+    let x = build_root(&cfg, WmoVersion::Classic);
+    let w = write_root_bytes(&x, WmoVersion::Classic).unwrap().unwrap();
+    let p = WmoParser::new().parse_root(&mut Cursor::new(&w[..])).unwrap();
+    let wk = walk(&w, 0, w.len(), &ROOT_IDS);
+    let modn = wk.get("MODN").map(|c| String::from_utf8_lossy(&w[c.start..c.end]).to_string());
+    println!("   written name_offset {}, parsed {}, MODN = {:?}", x.doodad_defs[0].name_offset, p.doodad_defs[0].name_offset, modn);
+
+    println!("== R6: custom bounds in the header, no groups");
+    let mut cfg = vec![0u8; 11];
+    cfg[10] = 2;
+    let x = build_root(&cfg, WmoVersion::Classic);
+    let w = write_root_bytes(&x, WmoVersion::Classic).unwrap().unwrap();
+    let p = WmoParser::new().parse_root(&mut Cursor::new(&w[..])).unwrap();
+    println!("   written {:?}\n   parsed  {:?}", x.bounding_box, p.bounding_box);
+
+    println!("== R7: empty group, write_group -> parse_wmo");
+    let g = build_group(&vec![0u8; 10]);
+    let w = write_group_bytes(&g, WmoVersion::Classic).unwrap().unwrap();
+    println!("   file {} bytes, MOGP size field {}", w.len(), u32_at(&w, 16).unwrap());
+    match guarded(|| parse_wmo(&mut Cursor::new(&w[..]))) {
+        Ok(x) => println!("   parse_wmo -> {:?}", x.map(|_| "ok").map_err(|e| e.to_string())),
+        Err((f, l, m)) => println!("   parse_wmo PANICS at {f}:{l}: {m}"),
+    }
+
+    println!("== R8: group with 4 vertices, write_group -> parse_wmo");
+    let mut cfg = vec![0u8; 10];
+    cfg[0] = 2;
+    let g = build_group(&cfg);
+    let w = write_group_bytes(&g, WmoVersion::Classic).unwrap().unwrap();
+    match guarded(|| parse_wmo(&mut Cursor::new(&w[..]))) {
+        Ok(Ok(ParsedWmo::Group(n))) => println!("   written {} vertices, parsed {}", g.vertices.len(), n.vertex_positions.len()),
+        Ok(other) => println!("   parse_wmo -> {:?}", other.map(|_| "root?").map_err(|e| e.to_string())),
+        Err((f, l, m)) => println!("   parse_wmo PANICS at {f}:{l}: {m}"),
+    }
+
+    println!("== R9: group with liquid + doodad refs: MLIQ size field");
+    let mut cfg = vec![0u8; 10];
+    cfg[7] = 2;
+    cfg[8] = 1;
+    let g = build_group(&cfg);
+    let w = write_group_bytes(&g, WmoVersion::Classic).unwrap().unwrap();
+    let top = walk(&w, 0, w.len(), &GROUP_TOP_IDS);
+    let lay = group_layout(&w, &top.chunks[1]);
+    println!("   header_len {:?} (used {}), sub-chunks {:?}, gaps {:?}", lay.header_len, lay.used_len, lay.sub.chunks.iter().map(|c| (c.id.clone(), c.end - c.start)).collect::<Vec<_>>(), lay.sub.gaps);
+
+    println!("== R10: legacy WmoGroupParser::parse_group");
+    println!("   {:?}", WmoGroupParser::new().parse_group(&mut Cursor::new(&w[..]), 0).map(|_| "ok").map_err(|e| e.to_string()));
+}
